@@ -875,8 +875,15 @@ class Exec(Engine):
         out = []
         for name, text in clauses:
             node = ast.parse(text.strip(), mode="eval").body
-            v = self.ev(node, fr)
-            out.append((name, self.truth(v, fr)))
+            try:
+                v = self.ev(node, fr)
+                out.append((name, self.truth(v, fr)))
+            except (Unsupported, T.StaleContract, PathBudget, KeyboardInterrupt, MemoryError, RecursionError):
+                raise
+            except Exception as e:
+                # a specification function met a value of a shape it does not expect (the code no longer builds what the clause
+                # talks about): the clause is not evaluable here - undecided, never a crash of the check
+                raise Unsupported(f"clause '{name}' not evaluable: {type(e).__name__}: {e}"[:200])
         return out
 
     def run_ghost(self, stmts, fr):
@@ -1644,6 +1651,13 @@ class Exec(Engine):
         self.report = rep
         mod, fn = self.repo.lookup(key)
         c = self.reg.get(key)
+        wrappers = [ast.unparse(d_) for d_ in getattr(fn, "decorator_list", [])
+                    if ast.unparse(d_).split("(")[0] not in ("property", "staticmethod", "classmethod", "functools.wraps", "abc.abstractmethod", "abstractmethod")
+                    and not ast.unparse(d_).endswith((".setter", ".getter", ".deleter"))]
+        if wrappers:
+            # what callers run is the decorator's result, not this body: verifying the body would prove nothing about the code that runs
+            rep.missing = f"the function is wrapped by decorator(s) {wrappers}: the body under contract is not what callers run (outside the verifier's reach)"
+            return rep
         rep.sha = mod.sha
         if fn is None:
             rep.missing = f"function {key} not found in the repository"
